@@ -3,7 +3,7 @@ import itertools
 from usim import StreamClosed
 from usim._core.loop import Interrupt
 from ..run import run_one
-from ..oracles import kernel_health
+from ..oracles import kernel_health, containment
 from .. import faults as F
 
 PROPERTY = 'C10'
@@ -100,6 +100,14 @@ def cases(tier):
         for p in (P1[:3] + P2[:2]) if not thorough else (P1 + P2[:4]):
             for c1, c2, c3 in itertools.product(tri, tri, tri):
                 out.append(program(p, [c1, c2, c3], close))
+    # four consumers queued at once: a waiter leaving the middle of the queue
+    quad = [consumer(0, 'get'), consumer(0, 'iter1')]
+    for close in ('late',):
+        # (producers arrive later than the consumers, so that all four really queue up)
+        late_p = [[producer('a', 1, 2, 0)], [producer('a', 1, 2, 1)]] + ([[producer('a', 1, 2, 0), producer('b', 1, 1, 0)]] if thorough else [])
+        for p in late_p:
+            for cs in itertools.product(quad, repeat=4):
+                out.append(program(p, list(cs), close))
     return out
 
 
@@ -194,10 +202,15 @@ def queue_model(ctx):
             if o.get('n_none', None) is None:
                 pass
     # waiter order among single gets pending at the same time
-    gets = sorted([o for o in ops.values() if o['op'] == 'GET' and 'end' in o], key=lambda o: o['start'])
+    INF_IDX = len(log) + 1
+    def leave(o):      # when the get stopped waiting: served, refused (closed), aborted - or never
+        return o.get('end', o.get('exc', INF_IDX))
+    gets = sorted([o for o in ops.values() if o['op'] == 'GET'], key=lambda o: o['start'])
     for a, b in itertools.combinations(gets, 2):
-        if b['start'] < a['end'] and b['end'] < a['end']:
-            msgs.append('%s started waiting before %s but was served after it' % (a['act'], b['act']))
+        # a started waiting before b; b was served an item while a was still waiting and a was not served before b
+        a_aborted = 'exc' in a and not isinstance(a['val'], StreamClosed)
+        if 'end' in b and b['start'] < leave(a) and b['end'] < leave(a) and not a_aborted:
+            msgs.append('%s started waiting before %s but %s was served first' % (a['act'], b['act'], b['act']))
     # timeliness: a receive completes in the time step in which its item is available and it is its turn:
     # at max(own start, put time of the item, latest earlier moment another receiver left the queue)
     put_time = {it: log[st][3] for st, it in sure + maybe}
@@ -251,6 +264,7 @@ def check_exec(program, faults=()):
     msgs, waited, ops = queue_model(ctx)
     msgs += iter_ends_ok(ctx, ops)
     msgs += kernel_health(ctx)
+    msgs += containment(ctx, program)
     if ctx.outcome is not None:
         msgs.append('run() raised %r' % (ctx.outcome,))
     return ctx, msgs, waited
